@@ -70,10 +70,9 @@ def run_chunk(exe, cases, workdir, tag):
         bad = todo[k]
         produced = blocks[k][1:] if k < len(blocks) else []
         nresp = len([l for l in produced if l.startswith("r ")])
-        nstate = len([l for l in produced if l.startswith("s ")])
         nfresh = len([l for l in produced if l.startswith("f ")])
         cmds = bad[1:-1]
-        # which call did not return: the incremental one (no r line yet) or one of the fresh objects
+        # which call did not return: the incremental one (no r line yet) or one of the fresh objects (r and s lines are flushed)
         idx = min(nfresh, len(cmds) - 1)
         where = "incremental" if nresp == nfresh else "fresh"
         how = "timeout" if (rc == 4 or rc == 124 or "TIMEOUT" in out[-200:]) else "crash rc=%d %s" % (rc, (err or "").strip()[-200:])
@@ -154,7 +153,23 @@ def classify(case_fails):
     # (2) incremental-only wrong optimum: the fresh object is right, the incremental object reports an infeasible / suboptimal point
     info["incremental_only"] = bool(ft.get("fresh_agrees_with_ref") == "true" and
                                     all(not f["kind"].startswith("fresh/") for f in at))
+    #     root cause probe of the harness: pending constraints were incorporated while last_generator (the point of a
+    #     descendant MIP problem) satisfied a pending inequality that the tableau's own basic solution violates
+    info["stale_last_generator_slack_made_basic"] = (ft.get("tainted") == "true")
     return info
+
+
+def data_features(judge, case, upto, workdir):
+    """features of the data reached by the first `upto` commands of a case (used for hangs, which the judge never sees)"""
+    fn = os.path.join(workdir, "data-%d.case" % os.getpid())
+    with open(fn, "w") as f:
+        f.write("\n".join([case[0]] + case[1:1 + upto] + ["end"]) + "\n")
+    rc, out = common.sh([judge, "--data", fn], timeout=600)
+    os.remove(fn)
+    for l in out.split("\n"):
+        if l.startswith("DATA "):
+            return dict(kv.split("=", 1) for kv in l.split(" ")[2:] if "=" in kv)
+    return {}
 
 
 def run(chk):
@@ -226,15 +241,26 @@ def run(chk):
     for (cid, grp), fs in sorted(per_case.items()):
         info = classify(fs)
         info["keyword"] = fs[0]["feats"].get("keyword")
-        census[(info["kinds"], info["pricing"], info["unbounded_relaxation_reported_unfeasible"], info["incremental_only"])] += 1
+        if grp == "ok":
+            f0 = [f for f in fs if f["step"] == info["step"]][0]["feats"]
+            info["last_generator_integral_on_integer_variables"] = f0.get("last_generator_integral_on_integer_variables")
+            info["integer_variable_beyond_last_generator"] = f0.get("integer_variable_beyond_last_generator")
+        census[(info["kinds"], info["pricing"], "unb->unf" if info["unbounded_relaxation_reported_unfeasible"] else "", "incr-only" if info["incremental_only"] else "",
+                "tainted" if info["stale_last_generator_slack_made_basic"] else "", info["keyword"])] += 1
         chk.failure(info, {"case": out["byid"].get(cid, []), "step": info["step"], "line": info["line"],
                            "judge": [dict(kind=f["kind"], step=f["step"], **f["feats"]) for f in fs[:6]],
                            "theorem": "bnb_sound + claim_check_sound (reference answer) ; machine_answers_correct / incremental_equals_fresh",
                            "replay_cmd": "./check C06 --replay <this file>"})
+    os.makedirs(work, exist_ok=True)
     for (case, idx, where, how) in out["incidents"]:
+        df = data_features(judge, case, idx + 1, work)
         info = {"kinds": "hang" if how == "timeout" else "crash", "where": where, "detail": how,
-                "line": case[1 + idx] if 1 + idx < len(case) else "?"}
-        chk.failure(info, {"case": case, "step": idx + 1, "how": how})
+                "line": case[1 + idx] if 1 + idx < len(case) else "?",
+                "integer_variables": df.get("ints", "0") != "0", "relaxation_region_bounded": df.get("relaxation_region_bounded"),
+                "ref": (df.get("ref") or "").split(":")[0]}
+        census[(info["kinds"], where, info["integer_variables"], info["relaxation_region_bounded"])] += 1
+        chk.failure(info, {"case": case, "step": idx + 1, "how": how, "features": df})
+    shutil.rmtree(work, ignore_errors=True)
     chk.extra["failure_census"] = {"|".join(str(x) for x in k): v for k, v in sorted(census.items(), key=lambda kv: -kv[1])}
     if stat.get("checks", 0) and stat.get("undecided", 0) * 20 > stat["checks"]:
         chk.broken.append(("too-many-undecided", "%d undecided against %d checks" % (stat["undecided"], stat["checks"])))
